@@ -14,7 +14,7 @@ def trim_partial(path):
     return data.count(b"\n")
 
 
-def run_db(ctx, profile, nscen, tag, env=None, cfg="TraceDb.cfg", tries=2, timeout=600, key_fn=None):
+def run_db(ctx, profile, nscen, tag, env=None, cfg="TraceDb.cfg", tries=2, timeout=3000, key_fn=None):
     """returns number of rejected traces"""
     drv = ctx.go_build("dbtran")
     rejected = 0
